@@ -15,6 +15,16 @@ impl Compiler {
     ) -> Result<()> {
         use aelys_sema::TypedExprKind;
 
+        // same limit as the untyped path (compile_call)
+        if args.len() > 254 {
+            return Err(aelys_common::error::CompileError::new(
+                aelys_common::error::CompileErrorKind::TooManyArguments,
+                span,
+                self.source.clone(),
+            )
+            .into());
+        }
+
         // Handle format string with placeholders: func("x={}", x) -> func("x=" + __tostring(x))
         if let Some((fmt_parts, placeholder_count)) = Self::get_typed_fmt_placeholders(args)
             && placeholder_count > 0
@@ -80,7 +90,7 @@ impl Compiler {
                 && self.module_aliases.contains(module_name)
             {
                 let qualified_name = format!("{}::{}", module_name, member);
-                let global_idx = self.get_or_create_global_index(&qualified_name);
+                let global_idx = self.get_or_create_global_index(&qualified_name)?;
                 self.accessed_globals.insert(qualified_name.clone());
 
                 if global_idx <= 255 {
@@ -187,7 +197,7 @@ impl Compiler {
                     return self.compile_typed_call_fallback(callee, args, dest, span);
                 }
                 let actual_name = self.resolve_global_name(name).to_string();
-                let global_idx = self.get_or_create_global_index(name);
+                let global_idx = self.get_or_create_global_index(name)?;
                 self.accessed_globals.insert(actual_name.clone());
 
                 if global_idx <= 255 {
@@ -314,7 +324,7 @@ impl Compiler {
         let qualified_name = format!("string::{}", method);
         let total_args = 1 + args.len(); // self + extra args
 
-        let global_idx = self.get_or_create_global_index(&qualified_name);
+        let global_idx = self.get_or_create_global_index(&qualified_name)?;
         self.accessed_globals.insert(qualified_name.clone());
 
         if global_idx <= 255 {
@@ -409,7 +419,7 @@ impl Compiler {
         }
 
         // load the function by global index (avoids known_globals check)
-        let global_idx = self.get_or_create_global_index(qualified_name);
+        let global_idx = self.get_or_create_global_index(qualified_name)?;
         self.accessed_globals.insert(qualified_name.to_string());
         self.emit_b(OpCode::GetGlobalIdx, callee_reg, global_idx as i16, span);
 
@@ -440,7 +450,7 @@ impl Compiler {
         span: Span,
     ) -> Result<()> {
         let qualified_name = "__tostring";
-        let global_idx = self.get_or_create_global_index(qualified_name);
+        let global_idx = self.get_or_create_global_index(qualified_name)?;
         self.accessed_globals.insert(qualified_name.to_string());
 
         if global_idx <= 255 {
@@ -486,7 +496,7 @@ impl Compiler {
             self.next_register = callee_reg + 2;
         }
 
-        let global_idx = self.get_or_create_global_index("__tostring");
+        let global_idx = self.get_or_create_global_index("__tostring")?;
         self.accessed_globals.insert("__tostring".to_string());
         self.emit_b(OpCode::GetGlobalIdx, callee_reg, global_idx as i16, span);
         self.compile_typed_expr(object, callee_reg + 1)?;
